@@ -35,10 +35,15 @@ VMAP_STEP_BATCHES = (1, 2, 7)
 VMAP_RESET_BATCHES = (1, 2, 4)
 SCAN_PREFIXES = (1, 2, 5)
 CALLS = ("reset(k0)", "reset(k1)", "step(s0,a0)", "step(s0,a1)", "step(s1,a0)")
-# eager step/reset >= ~0.5 s per call on the tiny configuration (measured, notes/probes/timing.py):
-# these never get more than the minimum number of eager calls in the quick tier
+# Unloaded design-time measurements (second eager call, 2 XLA threads; notes/probes/timing.py and the C02 build):
+# eager step >= ~0.5 s on the tiny configuration: never more than the minimum number of eager calls (2 steps,
+# 1 reset) in the quick tier
 SLOW_EAGER = ("bin_pack", "pac_man", "robot_warehouse", "rubiks_cube", "mmst")
-EAGER_CHEAP_S = 0.3
+# eager step or reset >= 0.3 s per call (BinPack 3.4/2.0, RubiksCube 1.5/1.0, RobotWarehouse 1.2/0.6, MMST 0.6/2.3,
+# PacMan 0.5, Game2048 0.44, FlatPack reset 0.9, LBF reset 0.33; Connector() reset 3.4): histories are run in the
+# reduced form.  A static table, not a run-time measurement, so that what is enumerated does not depend on load.
+SLOW_HISTORY = ("bin_pack", "pac_man", "robot_warehouse", "rubiks_cube", "mmst", "game_2048", "flat_pack", "lbf")
+SLOW_HISTORY_DEFAULT = SLOW_HISTORY + ("connector",)
 
 BOUNDS = {
     "quick": dict(max_states=300, n_T=200, path_len=8, n_paths=20, eager_step_s=8.0, eager_reset_s=8.0,
@@ -317,7 +322,7 @@ def _check_config(cx: "Ctx", cfg_name: str, family: str, ctor: str, kind: str, t
     rec = Recorder(per_parent=max(16, -(-B["n_T"] // len(KEY_WINDOW))))
     ex = Explorer(env, cfg_name, PID, keys=KEY_WINDOW, actions=actions, monitors=[rec],
                   max_depth=64, max_states=B["max_states"], seed=seed, ctor=ctor, eager_max_paths=0,
-                  time_budget_s=60.0 if tier == "quick" else 400.0,
+                  time_budget_s=150.0 if tier == "quick" else 400.0,
                   chunk_rows=(32 if tier == "quick" else 128) * nA)  # few padded batch shapes => few compilations
     res = ex.run()
     gx = GraphExec(env, actions, ex)
@@ -494,7 +499,8 @@ def _check_config(cx: "Ctx", cfg_name: str, family: str, ctor: str, kind: str, t
     # stratify: the first two eager calls are a transition out of a reset state and one of the deepest ones
     depth_of = [len(pth) for pth in T["path"]]
     shallow = next(i for i in order if depth_of[i] == min(depth_of))
-    deep = next(i for i in order if depth_of[i] == max(depth_of))
+    deep = next((i for i in order if depth_of[i] == max(depth_of) and T["key"][i] != T["key"][shallow]),
+                next(i for i in order if depth_of[i] == max(depth_of)))  # preferably of another episode (key)
     order = [shallow, deep] + [i for i in order if i not in (shallow, deep)]
     slow = family in SLOW_EAGER
     eager_cost: List[float] = []
@@ -574,7 +580,7 @@ def _check_config(cx: "Ctx", cfg_name: str, family: str, ctor: str, kind: str, t
     # ------------------------------------------------------------------ (2)+(3) call histories, instances
     t0 = time.time()
     hist = run_histories(cx, env, twin, gx, ctor, actions, root_s, root_ts, tier,
-                         eager_cheap=(not slow) and max(step_eager_s or 0, reset_eager_s or 0) < EAGER_CHEAP_S,
+                         eager_cheap=family not in (SLOW_HISTORY_DEFAULT if kind == "default" else SLOW_HISTORY),
                          env_jit={"reset": reset_j, "step": step_j})
     timing["history_s"] = round(time.time() - t0, 2)
 
